@@ -12,7 +12,10 @@ H = os.path.join(runner.VERIF, 'harness', 'h_c11.py')
 
 
 def replay(q, args, kwargs):
+    root = os.path.join(runner.WORK, PID, 'proj')
+    os.environ['VERIF_C11_ROOT'] = root
     h = runner.load_module(H, 'h_c11_native')
+    h.materialise(root)
     fn = q.meta['fn']
     if fn == 'header':
         kind, name, ind, n1, n2, deco = args[:6]
@@ -32,7 +35,7 @@ def replay(q, args, kwargs):
         from supp.util import Source
         from supp.nast import extract_scope
         sc = extract_scope(Source(text, 'f.py'), Project(['/nonexistent-root']))
-        lines = text.splitlines()
+        lines = text.split('\n')
         bad = [(n.name, n.declared_at) for f, n in sc.all_names
                if n.name == name and lines[n.declared_at[0] - 1][n.declared_at[1]:n.declared_at[1] + len(name)] != name]
         want_col = n1 if cont else 4 * ind + len(kw) + n1
@@ -49,7 +52,7 @@ def replay(q, args, kwargs):
                 'what': 'import form %d with names %r: a bound alias is reported at the wrong position'
                         % (form, (h.IDS[mi], h.IDS[xi], h.IDS[yi], h.IDS[zi])), 'replay': {'fn': 'imports', 'args': args}}
     case = args[0]
-    bad = h.bindings_ok(h.PROGRAMS[case])
+    bad = h.cross_file_ok(h.PROGRAMS[case]) if h.PROGRAMS[case] in h.CROSS else h.bindings_ok(h.PROGRAMS[case])
     if not bad:
         return {'violated': False}
     return {'violated': True, 'known': None, 'what': '%s in\n%s' % ('; '.join(bad[:3]), h.PROGRAMS[case]),
@@ -59,7 +62,10 @@ def replay(q, args, kwargs):
 def run(tier, seed):
     rep = Report(PID, tier, seed, 'other')
     runner.workdir(PID)
+    root = os.path.join(runner.WORK, PID, 'proj')
+    os.environ['VERIF_C11_ROOT'] = root
     h = runner.load_module(H, 'h_c11_setup')
+    h.materialise(root)
     src = open(H).read()
     qs = []
     for kind in range(3):
